@@ -558,6 +558,8 @@ class Network(ElementBase):
 
         # dynamics
         for origin in self.origins:
+            if not origin.has_states:
+                continue  # e.g., the ideal origin has no dynamics to step
             origin.step(
                 net=self,
                 engine=engine,
